@@ -139,7 +139,7 @@ def build_lib(variant):
             raise
         shutil.rmtree(d, ignore_errors=True)
         os.rename(tmp, d)
-        _prune("lib-%s-" % variant, 3)
+        _prune("lib-%s-" % variant, 8)
         log("[build] libipr (%s) %.1fs" % (variant, time.time() - t0))
         return lib
 
@@ -194,7 +194,7 @@ def build_harness(name, spec):
             raise
         shutil.rmtree(d, ignore_errors=True)
         os.rename(tmp, d)
-        _prune("h-%s-%s-" % (name, variant), 2)
+        _prune("h-%s-%s-" % (name, variant), 4)
         log("[build] harness %s (%s) %.1fs" % (name, variant, time.time() - t0))
         return exe
 
